@@ -340,7 +340,20 @@ func (fv *FV) applyModel(st *State, call *ast.CallExpr, callee *types.Func, sel 
 		if u, ok := tgt.(*ast.UnaryExpr); ok && u.Op == token.AND && fv.isPathExpr(stripParens(u.X)) {
 			p := fv.lvalue(st, stripParens(u.X))
 			cur := fv.readPath(st, p, true)
-			fv.writePath(st, p, fv.fresh("unmarshalled", cur.Sort), call.Pos())
+			nv := fv.fresh("unmarshalled", cur.Sort)
+			if cur.Sort.Kind == KOpaque {
+				// an interface holding a pointer: JSON null makes it nil, anything else decodes into the value it holds
+				dt := fv.ss.DynTypeFn(cur.Sort)
+				st.assume(tOr(tEq(nv, Term{fv.ss.Zero(cur.Sort), cur.Sort}), T(sx("=", sx(dt, nv.S), sx(dt, cur.S)), SBool)))
+				if bi, ok := fv.boxedFrom[cur.S]; ok && bi.v.Sort.Kind == KPtr {
+					// the interface held a pointer: unless it became nil it still holds a (non-nil) pointer of that type
+					fn, _ := fv.ss.BoxFn(bi.v.Sort, cur.Sort, bi.typ)
+					np := fv.fresh("unmarshalledptr", bi.v.Sort)
+					st.assume(tImp(tNot(tEq(bi.v, ptrNil(bi.v.Sort))), tNot(tEq(np, ptrNil(bi.v.Sort)))))
+					st.assume(tOr(tEq(nv, Term{fv.ss.Zero(cur.Sort), cur.Sort}), tEq(nv, Term{sx(fn, np.S), cur.Sort})))
+				}
+			}
+			fv.writePath(st, p, nv, call.Pos())
 		} else if fv.isPathExpr(tgt) {
 			p := fv.lvalue(st, tgt)
 			cur := fv.readPath(st, p, true)
